@@ -147,13 +147,31 @@ Theorem C03_fixed_point_userinfo_port : forall (O : oracles) (B : backend) (s : 
   (forall m, u_eager u = Some m -> m_user m <> Some []) ->
   exists s' u2 m m2,
     url_str B u = Ok s' /\ encode_url O B s' = Ok u2 /\ url_str B u2 = Ok s'
-    /\ u_eager u = Some m /\ u_eager u2 = Some m2
+    /\ netloc_parts u = Ok m /\ netloc_parts u2 = Ok m2
     /\ u_scheme u2 = u_scheme u /\ m_user m2 = m_user m /\ m_password m2 = m_password m /\ m_host m2 = m_host m
     /\ port u2 = port u
     /\ u_path u2 = printed_path u /\ raw_path u2 = raw_path u
     /\ u_query u2 = u_query u /\ u_fragment u2 = u_fragment u.
 Proof. exact fixed_point_userinfo. Qed.
 Print Assumptions C03_fixed_point_userinfo_port.
+(** The same as a statement about URL VALUES, however they were produced (constructor,
+    build(), pickling, any chain of modifiers): a value whose stored authority is
+    make_netloc of canonical userinfo texts, a plain lower-case ASCII host name and a port in
+    range, whose authority parts (pre-computed or lazily split) are exactly those, and whose
+    scheme, path, query and fragment are canonical, prints as a string that is accepted
+    again and yields the same string and the same parts. *)
+Theorem C03_fixed_point_of_canonical_value :
+  forall (O : oracles) (B : backend) (u : url) (ru rp : option str) (h : str) (pt : option N),
+  canon_value B u ru rp h pt ->
+  exists s' u2 m m2,
+    url_str B u = Ok s' /\ encode_url O B s' = Ok u2 /\ url_str B u2 = Ok s'
+    /\ netloc_parts u = Ok m /\ netloc_parts u2 = Ok m2
+    /\ u_scheme u2 = u_scheme u /\ m_user m2 = m_user m /\ m_password m2 = m_password m /\ m_host m2 = m_host m
+    /\ port u2 = port u
+    /\ u_path u2 = printed_path u /\ raw_path u2 = raw_path u
+    /\ u_query u2 = u_query u /\ u_fragment u2 = u_fragment u.
+Proof. exact fixed_point_value. Qed.
+Print Assumptions C03_fixed_point_of_canonical_value.
 (** its core: re-encoding a canonical authority changes nothing *)
 Theorem C03_authority_fixed : forall (O : oracles) (B : backend) (sc : str) (ru rp : option str) (h : str) (pt : option N),
   ucanon_opt ru -> ucanon_opt rp -> ru <> Some [] -> plain_name h -> lower_ascii h = h ->
